@@ -908,3 +908,54 @@ Proof.
          [(CExplicit, NExistingInput (fi_at 2 1 0)); (CImplicit, NSuccessfulCommand 9 [missing_info])], [fi_at 3 5 0].
   vm_compute. repeat split; auto.
 Qed.
+(* ------------------------------------------------------------------ further concrete instances *)
+
+Example command_valid_instances :
+  (* unchanged outputs, same hash: valid; other hash: invalid unless generator; output re-stamped or missing: invalid *)
+  command_valid (ex_cmd 7) (NSuccessfulCommand 7 [ex_out]) [ex_out] = Some true /\
+  command_valid (ex_cmd 8) (NSuccessfulCommand 7 [ex_out]) [ex_out] = Some false /\
+  command_valid (mkCmd 8 true false false false) (NSuccessfulCommand 7 [ex_out]) [ex_out] = Some true /\
+  command_valid (ex_cmd 7) (NSuccessfulCommand 7 [ex_out]) [fi_at 3 5 1] = Some false /\
+  command_valid (ex_cmd 7) (NSuccessfulCommand 7 [ex_out]) [missing_info] = Some false /\
+  command_valid (ex_cmd 7) (NSuccessfulCommand 7 [ex_out; ex_mid]) [ex_out; ex_mid] = Some true /\
+  command_valid (ex_cmd 7) (NSuccessfulCommand 7 [ex_out; ex_mid]) [ex_out; missing_info] = Some false.
+Proof. vm_compute. repeat split; reflexivity. Qed.
+
+Example input_valid_instances :
+  input_valid (input_value ex_src) ex_src = true /\
+  input_valid (NExistingInput ex_src) (fi_at 2 1 1) = false /\      (* one nanosecond later *)
+  input_valid (NExistingInput ex_src) missing_info = false /\
+  input_value missing_info = NMissingInput /\
+  input_valid NMissingInput ex_src = false.
+Proof. vm_compute. repeat split; reflexivity. Qed.
+
+Example no_prior_runs_instance :
+  executes (rule_step ex_ctx (ex_cmd 7) None ex_ins [false; false; false] [ex_out]) = true /\
+  (* a generator command decides on the stamps alone *)
+  executes (rule_step ex_ctx (mkCmd 7 true false false false) None ex_ins [false; false; false] [ex_out]) = false.
+Proof. vm_compute. split; reflexivity. Qed.
+
+Example newest_instance :
+  newest_mod_time ex_ins = (2, 5) /\
+  newest_mod_time [(CExplicit, NExistingInput ex_src); (CExplicit, NMissingInput); (CImplicit, NSuccessfulCommand 3 [missing_info])] = (1, 0) /\
+  newest_mod_time [(COrderOnly, NExistingInput ex_out)] = (0, 0).
+Proof. vm_compute. repeat split; reflexivity. Qed.
+
+Example phony_alias_instance :
+  let alias := mkCmd 9 false true false false in
+  decide ex_ctx alias None [(CExplicit, NSuccessfulCommand 3 [ex_mid])] [missing_info] = DPhony true /\
+  decide ex_ctx (ex_cmd 7) (Some (NSuccessfulCommand 7 [ex_out]))
+         [(CExplicit, NExistingInput ex_src); (CImplicit, NSuccessfulCommand 9 [missing_info])] [ex_out] = DRun /\
+  (* as an order-only input the alias is harmless *)
+  decide ex_ctx (ex_cmd 7) (Some (NSuccessfulCommand 7 [ex_out]))
+         [(CExplicit, NExistingInput ex_src); (COrderOnly, NSuccessfulCommand 9 [missing_info])] [ex_out] = DUpdateOnly.
+Proof. vm_compute. repeat split; reflexivity. Qed.
+
+Example run_complete_instances :
+  run_complete (ex_cmd 7) false true true [ex_out] = (NSuccessfulCommand 7 [ex_out], true) /\
+  run_complete (mkCmd 7 false false false true) false true true [ex_out] = (NSuccessfulCommand 7 [ex_out], false) /\
+  run_complete (ex_cmd 7) false true false [ex_out] = (NFailedCommand, true) /\
+  run_complete (ex_cmd 7) true true true [ex_out] = (NSkippedCommand, false) /\
+  select_result (NSuccessfulCommand 7 [ex_out; ex_mid]) 1 = Some (NSuccessfulCommand 7 [ex_mid], false) /\
+  select_result NFailedCommand 1 = Some (NFailedCommand, true).
+Proof. vm_compute. repeat split; reflexivity. Qed.
